@@ -155,6 +155,10 @@ func (t *Thread) call(fn *ssa.Function, args []Value, env []Value) Value {
 		fn = r
 		name = fn.String()
 	}
+	if fv, ok := ex.dynRedirect[name]; ok {
+		// harness-declared model of a library function (verifapi.Redirect)
+		return t.callFunc(fv, args)
+	}
 	if fn.Name() == "init" || strings.HasPrefix(fn.Name(), "init#") {
 		return nil // package initialisation is lazy (ensureInit); user init() functions are not run
 	}
@@ -172,7 +176,9 @@ func (t *Thread) call(fn *ssa.Function, args []Value, env []Value) Value {
 	if len(fn.Blocks) == 0 {
 		unsupportedf("call of function without body: %s", name)
 	}
-	if fn.Pkg != nil && !ex.prog.interpretable(fn.Pkg.Pkg.Path()) {
+	if interpretFuncs[name] {
+		// a pure function of a package that is otherwise reached through stubs only
+	} else if fn.Pkg != nil && !ex.prog.interpretable(fn.Pkg.Pkg.Path()) {
 		unsupportedf("call into non-interpretable package: %s", name)
 	} else if fn.Pkg == nil {
 		// synthetic wrappers / instantiations: judge by origin or by the method's package
